@@ -100,3 +100,30 @@ def trace_robust(rep, prop, run, events, nchunks=8):
     if len(done) != min(nchunks, len(events)):
         raise vlib.ToolError("Trace_Robust: %d of %d chunks finished" % (len(done), nchunks))
     return {l["id"]: l["broken"] for l in lines if l["id"] != "done"}
+
+
+def ext_type_sweep(rep, binary, prop):
+    """(c) all 65536 extension types x 3 dispatchers x 2 payloads and x 16 tag parsers, swept on the crate and judged
+    run by run by TLC against the codes the specification computes (Trace_C05)."""
+    d = vlib.workdir(prop, "extsweep")
+    path = vlib.os.path.join(d, "ext.ndjson")
+    vlib.run_harness(binary, ["sweep-ext", path])
+    tables = vlib.read_ndjson(path)
+    _, res, verdicts = vlib.tlc_chunked(prop, "extsweep_tlc", "Trace_C05", nchunks=len(tables), env={"VERIF_IN": path}, out_name="verdict")
+    rep.add_tlc("Trace_C05", res)
+    if len(verdicts) != len(tables):
+        raise vlib.ToolError("extension sweep: %d verdicts for %d tables" % (len(verdicts), len(tables)))
+    rep.count(65536 * len(tables))
+    for t in tables:
+        for r in t["rle"]:
+            rep.nontrivial(("extsweep", t.get("which") or t.get("fn"), t.get("plen", 1), r[0]))
+    for v in verdicts:
+        if not v["agree"]:
+            f = v["first"]
+            where = "type %s" % f[1] if len(f) == 4 else "run %s" % f[0]
+            rep.violation("exttype:%s:%s" % (v["table"], f[1] if len(f) == 4 else f[0]), {"table": v["table"], "first": f},
+                          f[3] if len(f) == 4 else None, f[2] if len(f) == 4 else None,
+                          "extension type sweep %s: from %s the crate answers %s, the specification says %s" % (
+                              v["table"], where, f[2] if len(f) == 4 else "?", f[3] if len(f) == 4 else "?"), "sweep")
+        else:
+            rep.cov["traces_validated_against_impl"] += 1
